@@ -667,6 +667,35 @@ func (x *Exec) checkSteps(st *State, fr *Frame, li *loopInfo) {
 	}
 }
 
+
+// invGuard evaluates a declared loop invariant (or one conjunct of it). An invariant that cannot be
+// bound at this loop any more - it names it_/rng_ and an edit turned the range loop into a loop the
+// engine does not recognise as an indexed walk, or it names a local that is gone - is dropped with a
+// note instead of failing the whole contract: the loop is then verified with the remaining
+// invariants (fewer assumptions, so still sound) and the clauses that needed it fail by name.
+func (x *Exec) invGuard(env *Env, c *Clause, pe ast.Expr) (g Term, ok bool) {
+	defer func() {
+		if r := recover(); r != nil {
+			if se, isSpec := r.(specErr); isSpec && strings.Contains(se.msg, "unknown identifier") {
+				note := fmt.Sprintf("loop invariant dropped (it cannot be bound at this loop any more): %s [%s]", c.Text, se.msg)
+				dup := false
+				for _, n := range x.notes {
+					if n == note {
+						dup = true
+					}
+				}
+				if !dup {
+					x.notes = append(x.notes, note)
+				}
+				g, ok = "", false
+				return
+			}
+			panic(r)
+		}
+	}()
+	return env.evalBool(pe), true
+}
+
 func (x *Exec) checkInvariants(st *State, fr *Frame, li *loopInfo, phase string) {
 	ls := x.loopSpec(fr.fn, li)
 	env := x.loopEnv(st, fr, li)
@@ -695,7 +724,9 @@ func (x *Exec) checkInvariants(st *State, fr *Frame, li *loopInfo, phase string)
 				d = fmt.Sprintf("%d.%d", k, j)
 				desc += "  [conjunct: " + exprString(pe) + "]"
 			}
-			x.oblige(st, "inv"+fmt.Sprint(li.ordinal)+"."+phase, d, env.evalBool(pe), x.propsFor(c), desc, token.NoPos)
+			if g, ok := x.invGuard(env, c, pe); ok {
+				x.oblige(st, "inv"+fmt.Sprint(li.ordinal)+"."+phase, d, g, x.propsFor(c), desc, token.NoPos)
+			}
 		}
 	}
 }
@@ -931,7 +962,9 @@ func (x *Exec) havocLoop(st *State, fr *Frame, li *loopInfo) {
 			delete(env.vars, c.Bound)
 			continue
 		}
-		st.assume(env.evalBool(c.Expr))
+		if g, ok := x.invGuard(env, c, c.Expr); ok {
+			st.assume(g)
+		}
 	}
 }
 
